@@ -2,9 +2,9 @@
    Statements only; model: Fix/FixModel.v (check.c) + Fix/HistModel.v (scan step, sync command over Array/SyncModel.v,
    damage, the version-store judge); proofs: Fix/Witnesses.v.
 
-   The full-strength statement `fix_never_wrong` is FALSE on the faithful model, four different ways; each refutation is
+   The full-strength statement `fix_never_wrong` is FALSE on the faithful model, three different ways (a fourth one, F-C05a, was repaired in /repo); each refutation is
    a concrete history evaluated inside Coq and replayed on the real binary by harness/py/check_C05.py
-   (corpus/C05/f_c05{a,b,c,d}.json -> known findings F-C05a..d). *)
+   (corpus/C05/f_c05{b,c,d}.json -> open findings F-C05b..d; f_c05a.json is a regression case). *)
 From Coq Require Import NArith ZArith List Bool Arith.
 From Snap.Array Require Import ArrayDefs SyncModel.
 From Snap.Fix Require Import FixModel HistModel Witnesses.
@@ -19,15 +19,15 @@ Theorem C05_statement :
 Proof. unfold fix_never_wrong. split; intro H; exact H. Qed.
 Print Assumptions C05_statement.
 
-(* a: sync.c:1015 stores the hash of the new data in a CHG block although the stripe is then skipped *)
-Theorem C05_fix_never_wrong_refuted_a : ~ fix_never_wrong.
-Proof. exact fix_never_wrong_refuted_a. Qed.
-Print Assumptions C05_fix_never_wrong_refuted_a.
-Theorem C05_witness_a :
-  wf_hist 1024 ops_a = true /\ all_fine (run false ops_a) = false
-  /\ file_blocks (run false ops_a) 0 1 = Some [11%N] /\ said_recovered (run false ops_a) 0 1 = true.
-Proof. exact witness_a. Qed.
-Print Assumptions C05_witness_a.
+(* a: REPAIRED (/repo 0d034b0).  sync.c used to store the hash of the new data in a CHG block although the stripe was then
+      skipped (finding F-C05a).  Regression statement on the same history: the CHG block keeps its past hash after the skipped
+      stripe, fix recognises the rebuilt old data ("maybe old data") and the file is reported, not 'recovered' *)
+Theorem C05_regression_a :
+  wf_hist 1024 ops_a = true /\ all_fine (run false ops_a) = true
+  /\ said_recovered (run false ops_a) 0 1 = false
+  /\ chg_hash_after_skipped_sync = Some (w_hashf 11%N 1024%N).
+Proof. exact regression_a. Qed.
+Print Assumptions C05_regression_a.
 
 (* b: check.c:445 compares the rebuilt block with the past hash over the NEW block length *)
 Theorem C05_fix_never_wrong_refuted_b : ~ fix_never_wrong.
